@@ -164,6 +164,13 @@ def check(case, ctx):
         ctx.count("queries")
     # metamorphic: points strictly above the hull do not change the selection
     xa = case["alam"] @ P
+    if len(xa) >= 1 and not case.get("large"):
+        # ... including one placed exactly above an existing sample (a hull vertex when there is one among the first rows)
+        pick = min(sel) if sel else 0
+        xa = np.vstack([xa, P[pick]])
+        case = dict(case)
+        case["aoff"] = np.r_[case["aoff"], 0.5 + abs(case["b"]) % 1.0]
+        case["ahigh"] = np.vstack([case["ahigh"], X[pick]])
     ha = [hull_height(P, y, x) for x in xa]
     if all(h is not None for h in ha):
         ya = np.array(ha) + case["aoff"] * ysc
